@@ -600,53 +600,64 @@ Lemma unit_of_aligned l nS :
 Proof. intro H. unfold unit_of, aligned_unit. rewrite sect_find_nth, H. reflexivity. Qed.
 
 Lemma need_of_ext l l' ii :
-  l_well l = l_well l' -> l_data l = l_data l' ->
+  l_well l = l_well l' -> l_curves l = l_curves l' -> l_data l = l_data l' ->
   need_of numeq (mkmlas l ii) = need_of numeq (mkmlas l' ii).
-Proof. intros H1 H2. unfold need_of. cbn [m_las m_index_initial]. rewrite H1, H2. reflexivity. Qed.
+Proof. intros H1 H3 H2. unfold need_of, index_of. cbn [m_las m_index_initial]. rewrite H1, H2, H3. reflexivity. Qed.
 
 Lemma aligned_unit_ext l l' :
   l_well l = l_well l' -> l_curves l = l_curves l' -> aligned_unit l = aligned_unit l'.
 Proof. intros H1 H2. unfold aligned_unit, c0unit_of. rewrite H1, H2. reflexivity. Qed.
 
-(* when lasio decides to refresh *)
+(* when lasio decides to refresh.  With index_initial set, writer.write evaluates las.index
+   unguarded: the three lemmas about that case carry "at least one curve" (without a curve the
+   call raises IndexError: need_no_curve, write_no_curve_raises). *)
 Lemma need_created m : m_index_initial m = None -> need_of numeq m = Some true.
 Proof. unfold need_of. intros ->. reflexivity. Qed.
 
 Lemma need_changed m iv lastc rr svv :
-  m_index_initial m = Some iv -> rev iv = lastc :: rr ->
+  m_index_initial m = Some iv -> s_items (l_curves (m_las m)) <> [] -> rev iv = lastc :: rr ->
   item_value_by (s_transforms (l_well (m_las m))) k_stop (s_items (l_well (m_las m))) = Some svv ->
   cells_equal numeq iv (index_of (m_las m)) = false ->
   need_of numeq m = Some true.
 Proof.
-  unfold need_of, index_of. intros -> -> H1 H2. fold k_stop. rewrite H1, H2. reflexivity.
+  unfold need_of. intros -> Hc -> H1 H2. fold k_stop. rewrite H1, H2.
+  destruct (s_items (l_curves (m_las m))); [contradiction|reflexivity].
 Qed.
 
 Lemma need_stop_differs_int m iv t rr z :
-  m_index_initial m = Some iv -> rev iv = CNum t :: rr ->
+  m_index_initial m = Some iv -> s_items (l_curves (m_las m)) <> [] -> rev iv = CNum t :: rr ->
   item_value_by (s_transforms (l_well (m_las m))) k_stop (s_items (l_well (m_las m))) = Some (VInt z) ->
   numeq t (z_to_str z) = false ->
   need_of numeq m = Some true.
 Proof.
-  unfold need_of. intros -> -> H1 H2. fold k_stop. rewrite H1, H2. rewrite orb_true_r. reflexivity.
+  unfold need_of. intros -> Hc -> H1 H2. fold k_stop. rewrite H1, H2. rewrite orb_true_r.
+  destruct (s_items (l_curves (m_las m))); [contradiction|reflexivity].
 Qed.
 
 Lemma need_stop_differs_float m iv t rr x :
-  m_index_initial m = Some iv -> rev iv = CNum t :: rr ->
+  m_index_initial m = Some iv -> s_items (l_curves (m_las m)) <> [] -> rev iv = CNum t :: rr ->
   item_value_by (s_transforms (l_well (m_las m))) k_stop (s_items (l_well (m_las m))) = Some (VFloat x) ->
   numeq t x = false ->
   need_of numeq m = Some true.
 Proof.
-  unfold need_of. intros -> -> H1 H2. fold k_stop. rewrite H1, H2. rewrite orb_true_r. reflexivity.
+  unfold need_of. intros -> Hc -> H1 H2. fold k_stop. rewrite H1, H2. rewrite orb_true_r.
+  destruct (s_items (l_curves (m_las m))); [contradiction|reflexivity].
 Qed.
 
 Lemma need_stop_text m iv lastc rr s :
-  m_index_initial m = Some iv -> rev iv = lastc :: rr ->
+  m_index_initial m = Some iv -> s_items (l_curves (m_las m)) <> [] -> rev iv = lastc :: rr ->
   item_value_by (s_transforms (l_well (m_las m))) k_stop (s_items (l_well (m_las m))) = Some (VStr s) ->
   need_of numeq m = Some true.
 Proof.
-  unfold need_of. intros -> -> H1. fold k_stop. rewrite H1.
+  unfold need_of. intros -> Hc -> H1. fold k_stop. rewrite H1.
+  destruct (s_items (l_curves (m_las m))); [contradiction|].
   destruct lastc; rewrite orb_true_r; reflexivity.
 Qed.
+
+(* no curve and index_initial set: `las.index` raises IndexError *)
+Lemma need_no_curve m iv :
+  m_index_initial m = Some iv -> s_items (l_curves (m_las m)) = [] -> need_of numeq m = None.
+Proof. unfold need_of. intros -> ->. reflexivity. Qed.
 
 Theorem write_units_aligned o m text m' :
   write o m = WOk text m' ->
@@ -682,6 +693,13 @@ Proof. intro H. unfold step_of, strt_of, stop_of. rewrite H. reflexivity. Qed.
 Lemma step_of_single f c : step_of fmtv fmt_diff f [c] = VNone.
 Proof. destruct c; reflexivity. Qed.
 
+(* a NaN second sample after a numeric first one: first increment NaN *)
+Lemma step_of_nan f a rest z rr :
+  rev (CNum a :: CNaN :: rest) = CNum z :: rr ->
+  step_of fmtv fmt_diff f (CNum a :: CNaN :: rest) =
+  if str_eqb (fmtv f a) (fmtv f z) then VNone else VStr (s2l "nan").
+Proof. intro H. unfold step_of, strt_of, stop_of. rewrite H. reflexivity. Qed.
+
 Theorem write_truth o m text m' a rest z rr :
   write o m = WOk text m' ->
   need_of numeq m = Some true ->
@@ -704,9 +722,9 @@ Proof.
   cbn [m_las m_index_initial] in *. cbv zeta.
   assert (need = true).
   { destruct m as [l0 ii]. cbn [m_las m_index_initial] in *.
-    rewrite (need_of_ext l1 l0 ii F1 F6), Hneed in Hn. injection Hn as <-. reflexivity. }
+    rewrite (need_of_ext l1 l0 ii F1 F2 F6), Hneed in Hn. injection Hn as <-. reflexivity. }
   subst need.
-  assert (EI : index_of l1 = index_of (m_las m)) by (unfold index_of; rewrite F6; reflexivity).
+  assert (EI : index_of l1 = index_of (m_las m)) by (unfold index_of; rewrite F2, F6; reflexivity).
   rewrite <- (aligned_unit_ext l1 (m_las m) F1 F2), <- F1, <- (unit_of_aligned l1 nS HS).
   destruct (after_find_strt fmtv fmt_diff (col_fmt o 0%nat) (standardize fzero) l1 true nS nP nE HS HP HE eq_refl) as (itS & _ & AS).
   destruct (after_find_stop fmtv fmt_diff (col_fmt o 0%nat) (standardize fzero) l1 true nS nP nE HS HP HE eq_refl) as (itP & _ & AP).
@@ -745,6 +763,34 @@ Proof.
   - intros [->|(b & rest' & -> & Heq)]; rewrite VE, Hfirst.
     + rewrite step_of_single. reflexivity.
     + rewrite Hfirst in Hlast. rewrite (step_of_two _ a b rest' z rr Hlast), Heq. reflexivity.
+Qed.
+
+(* index [a; nan; ...; z] with different STRT / STOP texts: STEP is the text "nan" (the first
+   increment is NaN), whatever the unit *)
+Theorem write_truth_step_nan o m text m' a rest z rr :
+  write o m = WOk text m' ->
+  need_of numeq m = Some true ->
+  index_of (m_las m) = CNum a :: CNaN :: rest -> rev (index_of (m_las m)) = CNum z :: rr ->
+  str_eqb (fmtv (col_fmt o 0%nat) a) (fmtv (col_fmt o 0%nat) z) = false ->
+  exists e, sect_find (s_transforms (l_well (m_las m))) k_step (s_items (l_well (m_las m'))) = Some e /\ i_value e = VStr (s2l "nan").
+Proof.
+  intros H Hneed Hfirst Hlast Hd.
+  destruct (write_truth o m text m' a _ z rr H Hneed Hfirst Hlast) as (s & p & e & _ & _ & C & _ & _ & VE & _).
+  exists e. split; [exact C|]. rewrite VE, Hfirst.
+  rewrite Hfirst in Hlast. rewrite (step_of_nan _ a rest z rr Hlast), Hd. apply standardize_text.
+Qed.
+
+(* no curve and index_initial set (a file was read, its curves deleted): `las.index` raises
+   IndexError in writer.write, whatever the options *)
+Theorem write_no_curve_raises o m iv :
+  m_index_initial m = Some iv -> s_items (l_curves (m_las m)) = [] -> exists e, write o m = WErr e.
+Proof.
+  intros Hi Hc. destruct (write o m) as [text m'|e] eqn:E; [exfalso|eexists; reflexivity].
+  destruct (write_ok_inv _ _ _ _ E) as (wrap & l1 & v & l2 & H1 & _ & H3 & _ & _).
+  destruct (wrap_step_fields _ _ _ _ H1) as (_ & F2 & _).
+  destruct (refresh_inv _ _ _ _ _ _ H3) as (need & nS & nP & nE & Hn & _).
+  rewrite (need_no_curve (mkmlas l1 (m_index_initial m)) iv Hi) in Hn; [discriminate|].
+  cbn [m_las]. rewrite F2. exact Hc.
 Qed.
 
 End WriteLevel.
